@@ -134,6 +134,9 @@ type Sim struct {
 	SpuriousWake bool
 
 	killing     bool
+	mapSalt     uint64
+	mapState    uint64
+	mapPerms    int
 	StopOnFail  bool
 	simEnd      time.Duration
 	stateHashes []uint64
